@@ -21,7 +21,8 @@ ASSUMPTIONS = [
     "'shuts down cleanly' = stop() returns, loop thread joined, queue empty, "
     "no pending asyncio task, host process exits 0 without child processes",
 ]
-MUST_REACH = ["count_treat", "end_counts", "runner_exactly_once"]
+MUST_REACH = ["count_treat", "end_counts", "runner_exactly_once",
+              "restart_cstep_per_move", "e2e_counts"]
 JOB_TIMEOUT = 1500
 
 
@@ -66,6 +67,19 @@ def plan(tier, seed):
             for i in range(0, len(specs), per)]
     from vf import runner_stress
     jobs += runner_stress.plan(tier, seed)
+    # true multi-process end-to-end runs (real aiorunner + forked workers)
+    import random as _r
+    rng = _r.Random(f"C17e-{seed}")
+    for j in range(8 if tier == "quick" else 96):
+        n = rng.randint(3, 6)
+        w = rng.randint(2, n - 1)
+        steps = rng.randint(w + 4, 30)
+        jobs.append({"kind": "e2e", "hashseed": 0, "spec": {
+            "n_intf": n, "workers": w, "steps": steps, "more": rng.randint(
+                w, 12), "moves": ["sh"] + [rng.choice(["sh", "wf"])
+                                           for _ in range(n - 1)],
+            "seed": rng.randrange(2 ** 31), "maxlength": 200,
+            "delete_old": rng.random() < 0.5}})
     return jobs
 
 
@@ -156,7 +170,94 @@ def _nontrivial(rig, spec, mons):
     return spec["workers"] >= 2 or bool(spec.get("segments"))
 
 
+def _e2e(job, scratch):
+    """Real scheduler + real runner + forked workers, then a restart."""
+    import subprocess
+    import sys
+    from vf import rig_sched as R
+    from vf.probe_restart import run_probe
+    from vf.runner_stress import _survivors
+    res = {"n": 0, "sigs": [], "events": {}, "violations": [], "samples": [],
+           "reached": {}, "notes": [], "inconclusive": []}
+    spec = job["spec"]
+    cdir = os.path.join(scratch, "e2e")
+    R.make_case_dir(spec, cdir)
+    env = dict(os.environ)
+    env["PYTHONPATH"] = os.environ.get("VERIF_REPO", "/repo") + ":" + \
+        os.path.dirname(os.path.dirname(os.path.dirname(
+            os.path.abspath(__file__))))
+    total = spec["steps"]
+    for leg, inp in enumerate(["infretis.toml", "restart.toml"]):
+        if leg == 1:
+            total = spec["steps"] + spec["more"]
+            R.set_restart_steps(cdir, total)
+        p = subprocess.Popen([sys.executable, "-m", "vf.e2e_host", cdir, inp],
+                             env=env, start_new_session=True,
+                             stdout=subprocess.PIPE, stderr=subprocess.STDOUT)
+        try:
+            so, _ = p.communicate(timeout=600)
+        except subprocess.TimeoutExpired:
+            os.killpg(p.pid, 9)
+            res["inconclusive"].append("end-to-end run hit the 600 s "
+                                       "watchdog")
+            return res
+        res["n"] += 1
+        wit = {"e2e": F.brief(spec), "leg": leg}
+        if p.returncode != 0:
+            res["violations"].append(dict(
+                wit, mech="e2e-run-failed", what=f"exit code {p.returncode}: "
+                + so.decode(errors="replace")[-700:]))
+            return res
+        res["reached"]["e2e_counts"] = res["reached"].get("e2e_counts", 0) + 1
+        cur = R.read_restart(cdir)["current"]
+        if cur["cstep"] != total:
+            res["violations"].append(dict(
+                wit, mech="cstep-wrong-at-end",
+                what=f"real run ended with cstep {cur['cstep']}, {total} "
+                     "requested"))
+        if cur["locked"]:
+            res["violations"].append(dict(
+                wit, mech="inflight-after-finish",
+                what=f"finished real run leaves {cur['locked']} in flight"))
+        n_sh = sum(1 for ln in open(os.path.join(cdir, "sim.log"))
+                   if "]: shooted " in ln)
+        if n_sh != total:
+            res["violations"].append(dict(
+                wit, mech="log-records", what=f"{n_sh} 'shooted' records "
+                f"after {total} requested moves"))
+        rows = R.parse_data_file(os.path.join(cdir, "infretis_data.txt"))
+        pns = [r["pn"] for r in rows]
+        if len(set(pns)) != len(pns):
+            res["violations"].append(dict(
+                wit, mech="row-twice", what="a path has two data rows"))
+        if set(pns) & set(cur["active"]):
+            res["violations"].append(dict(
+                wit, mech="row-for-live-path", what="active path has a row"))
+        import time as _t
+        _t.sleep(0.3)
+        if _survivors(p.pid):
+            _t.sleep(1.5)
+            if _survivors(p.pid):
+                res["violations"].append(dict(
+                    wit, mech="child-processes-survive",
+                    what="worker processes outlive the finished run"))
+                try:
+                    os.killpg(p.pid, 9)
+                except OSError:
+                    pass
+        res["events"]["e2e_runs"] = res["events"].get("e2e_runs", 0) + 1
+        res["events"]["e2e_moves"] = res["events"].get("e2e_moves", 0) + (
+            total if leg == 0 else spec["more"])
+    pr = run_probe(cdir + "", picks=False)
+    res["sigs"].append(f"e2e-{spec['n_intf']}-{spec['workers']}-"
+                       f"{spec['steps']}-{spec['seed']}")
+    res["samples"].append({"e2e": F.brief(spec)})
+    return res
+
+
 def work(job, scratch):
+    if job["kind"] == "e2e":
+        return _e2e(job, scratch)
     if job["kind"] == "runner":
         from vf import runner_stress
         return runner_stress.work(job, scratch)
